@@ -465,7 +465,7 @@ PLANS = {
                 rule="one generated case file ((flags, pattern incl. single-token mutations of valid patterns, haystack, start)) replayed through find_from (optimized and no_opt, backtracking and PikeVM) by binaries built with default / index-positions / prohibit-unsafe / both / utf16 / alloc-only features; non-trivial = the default build finds a match",
                 technique="Lean 4 proof (any two build variants that refine the executor model agree wherever no error site is reachable - by the C06 safety theorem) + replay of one case file through six feature builds"),
     "C20": dict(proofs=["Proofs.C20", "Proofs.Closure", "Proofs.Final", "Proofs.SearchTerm"], fset="pattern", toolchain="+nightly",
-                runs=[("c20", dict(quick=3000, thorough=100000))],
+                runs=[("c20", dict(quick=6000, thorough=200000))],
                 rule="(regex from pool/generator, haystack incl. multi-byte text, interleaving of next()/next_back() calls: all-forward, all-backward, 3 random); non-trivial = regex has a match; plus str::find/rfind/contains/matches/rmatches/split/rsplit compared with find_iter",
                 technique="Lean 4 proof of the Searcher/ReverseSearcher contract for the model of RegexSearcher (any interleaving tiles the haystack; Match steps = find_iter) + correspondence on nightly"),
     "C06": dict(proofs=["Proofs.C06", "Proofs.Certs", "Proofs.Final", "Proofs.ByteSearch"], runs=[("engine", dict(quick=30000, thorough=1500000), ["--focus", "C06"]),
